@@ -33,6 +33,14 @@ import itertools
 from vlib import realfn, universe
 from vlib.universe import Par, PO, POK, VP, KWO, VK
 
+# a module the generated `from verif_hidden import ... as <star>` statements import from
+import sys as _sys
+import types as _types
+_hidden = _types.ModuleType('verif_hidden')
+_hidden.HAV = ()
+_hidden.HKV = {}
+_sys.modules['verif_hidden'] = _hidden
+
 ONAMES = ('a', 'b', 'c')
 LNAMES = ('x', 'y', 'z', 'a')
 CTXS = ('return', 'assign', 'if', 'try', 'with', 'listcomp', 'dictcomp', 'genexp', 'nested', 'lambda',
@@ -63,6 +71,15 @@ TAINTS = {
     'handover_kwargs': ('kwargs', 'MUTATE({K})', 'both'),
     'nonlocal_kwargs': ('kwargs', 'def _rebk():\n    nonlocal {K}\n    {K} = dict(HK)\n_rebk()', 'hidden'),
     'alias_kwargs': ('kwargs', '_alias = {K}\n_alias.update(HK)', 'both'),
+    # bindings that are not assignment targets
+    'import_kwargs': ('kwargs', 'from verif_hidden import HKV as {K}', 'hidden'),
+    'import_args': ('args', 'from verif_hidden import HAV as {A}', 'hidden'),
+    'match_capture_kwargs': ('kwargs', 'match dict(HK):\n    case {K}:\n        pass', 'hidden'),
+    'match_star_args': ('args', 'match (0,) + tuple(HA):\n    case [_, *{A}]:\n        pass', 'hidden'),
+    'match_rest_kwargs': ('kwargs', 'match dict(HK):\n    case {{**{K}}}:\n        pass', 'hidden'),
+    'except_as_kwargs': ('kwargs', 'try:\n    raise KeyError()\nexcept KeyError as {K}:\n    pass', 'dead'),
+    'def_kwargs': ('kwargs', 'def {K}():\n    pass', 'broken'),
+    'class_args': ('args', 'class {A}(object):\n    pass', 'broken'),
 }
 # statements that mention a star parameter without affecting it: must not lose precision
 HARMLESS = {
@@ -473,10 +490,10 @@ def taint_state(prog, upto=None):
         cur = st[target][1]
         if flow == 'hidden':
             new = 'hidden'
-        elif flow == 'dead':
-            new = 'dead'
+        elif flow in ('dead', 'broken'):
+            new = flow
         elif flow == 'both':
-            new = cur if cur in ('dead', 'hidden') else 'both'
+            new = cur if cur in ('dead', 'broken', 'hidden') else 'both'
         else:
             new = cur
         st[target] = (True, new)
@@ -554,6 +571,8 @@ class Built(object):
         g['SEL'] = sel
         g['HA'] = tuple(ha)
         g['HK'] = dict(hk or {})
+        _hidden.HAV = tuple(ha)
+        _hidden.HKV = dict(hk or {})
         del g['LOG'][:]
         del g['RES'][:]
         args = [100 + i for i in range(npos)]
